@@ -300,3 +300,85 @@ theorem nibble_cancel : ∀ x y : Fin 16,
   decide +kernel
 
 end Flipdot
+
+namespace Flipdot
+
+/-! ### Counting non-hex characters -/
+
+def nonhex (A : List UInt8) : Nat := (A.filter (fun c => !isHex c)).length
+
+theorem nonhex_append (A B : List UInt8) : nonhex (A ++ B) = nonhex A + nonhex B := by
+  simp [nonhex, List.filter_append]
+
+theorem nonhex_cons (c : UInt8) (A : List UInt8) :
+    nonhex (c :: A) = (if isHex c then 0 else 1) + nonhex A := by
+  by_cases h : isHex c = true <;> simp [nonhex, List.filter_cons, h] <;> omega
+
+theorem nonhex_of_all_hex (A : List UInt8) (h : ∀ c ∈ A, isHex c = true) : nonhex A = 0 := by
+  simp only [nonhex, List.length_eq_zero_iff, List.filter_eq_nil_iff]
+  intro c hc; simp [h c hc]
+
+theorem nonhex_hexUpper (N : List UInt8) : nonhex (hexUpper N) = 0 :=
+  nonhex_of_all_hex _ (hexUpper_all_hex N)
+
+theorem nonhex_ends (A : List UInt8) (h : EndsCRLF A) : 2 ≤ nonhex A := by
+  obtain ⟨p, rfl⟩ := h
+  rw [nonhex_append]
+  have : nonhex [13, 10] = 2 := by decide
+  omega
+
+theorem all_hex_of_nonhex_zero (A : List UInt8) (h : nonhex A = 0) : ∀ c ∈ A, isHex c = true := by
+  simp only [nonhex, List.length_eq_zero_iff, List.filter_eq_nil_iff] at h
+  intro c hc
+  have := h c hc
+  simpa using this
+
+/-- Terminator of the two encodings. -/
+def term (nl : Bool) : List UInt8 := if nl then [13, 10] else []
+
+/-- Numeric fields of "colon + almost-hex digits + terminator". -/
+theorem numsOf_digits (A : List UInt8) (nl : Bool) (h : nonhex A ≤ 1) :
+    numsOf (58 :: (A ++ term nl)) = hexPairs A := by
+  cases nl with
+  | true => exact numsOf_crlf A
+  | false =>
+    simp only [term, Bool.false_eq_true, ↓reduceIte, List.append_nil]
+    apply numsOf_plain
+    intro he
+    have := nonhex_ends A he
+    omega
+
+theorem numsOf_head_ne (c : UInt8) (X : List UInt8) (h : c ≠ 58) : numsOf (c :: X) = none := by
+  unfold numsOf
+  split
+  · rename_i heq; simp at heq; exact absurd heq.1 h
+  · rfl
+
+theorem numsOf_nil : numsOf [] = none := rfl
+
+/-- The two encodings of a frame in one form. -/
+def wire (f : Frame) (nl : Bool) : List UInt8 := 58 :: (hexUpper (numsF f) ++ term nl)
+
+theorem wire_false (f : Frame) : wire f false = enc f := by simp [wire, term, enc, numsF]
+theorem wire_true (f : Frame) : wire f true = encNL f := by simp [wire, term, encNL, enc, numsF]
+
+theorem dec_wire (f : Frame) (hf : f.WF) (nl : Bool) : dec (wire f nl) = .ok f := by
+  cases nl
+  · rw [wire_false]; exact C01.dec_enc f hf
+  · rw [wire_true]; exact C01.dec_encNL f hf
+
+theorem same_wire (f g : Frame) (hf : f.WF) (nl : Bool) (h : dec (wire f nl) = .ok g) : g = f := by
+  rw [dec_wire f hf nl] at h
+  exact (Except.ok.inj h).symm
+
+/-- Outcome of replacing one numeric byte: either the same byte (same frame) or a rejection. -/
+theorem byte_replaced (bs : List UInt8) (f g : Frame) (hf : f.WF) (NA NB : List UInt8) (b b' : UInt8)
+    (hN : numsF f = NA ++ b :: NB) (hn : numsOf bs = some (NA ++ b' :: NB)) (h : dec bs = .ok g) : g = f := by
+  by_cases hb : b' = b
+  · subst hb
+    exact same_nums bs f g hf h (by rw [hn, hN])
+  · exfalso
+    have h0 : bsum (NA ++ b :: NB) = 0 := by rw [← hN]; exact bsum_numsF f
+    exact badsum_rejected bs g _ h hn (one_byte_changed NA NB b b' h0 hb)
+
+end Flipdot
